@@ -2218,7 +2218,6 @@ impl SubRule {
                     m = false;
                     break;
                 }
-                *state_index += 1;
             }
             if m {
                 return Ok(true)
